@@ -1399,10 +1399,15 @@ class Interp:
         vals = []
         items = spec.items if isinstance(spec, F.Ac_Value_List) else [spec]
         for it in items:
+            if isinstance(it, F.Ac_Implied_Do):
+                vals.extend(self._implied_do(it, frame, g))
+                continue
             v = self.ev(it, frame, g)
             if isinstance(v, ArrVal):
                 raise Unsupported("nested array constructor")
             vals.append(v)
+        if not vals:
+            raise Unsupported("empty array constructor")
         if len({str(v.sort()) for v in vals}) != 1:
             vals = [to_real(v) for v in vals]
 
@@ -1415,6 +1420,38 @@ class Interp:
                 r = ITE(ks[0] == i, vals[i], r)
             return r
         return ArrVal([z3.IntVal(len(vals))], elem, self._tname_of(vals[0]))
+
+    def _implied_do(self, node, frame, g):
+        """(expr-list, var = lo, hi[, st]) with literal control: the values in order"""
+        exprs, ctl = node.items
+        exprs = exprs.items if isinstance(exprs, F.Ac_Value_List) else [exprs]
+        var = lname(ctl.items[0])
+        lims = [intval(self.ev_scalar(x, frame, g)) for x in ctl.items[1]]
+        if any(x is None for x in lims) or len(lims) not in (2, 3) or (len(lims) == 3 and lims[2] == 0):
+            raise Unsupported("implied-do with non-literal control")
+        b = self.lookup(var, frame)
+        if b is None or b.rank or b.tname != "integer":
+            raise Unsupported("implied-do variable " + var)
+        st = lims[2] if len(lims) == 3 else 1
+        rng = range(lims[0], lims[1] + (1 if st > 0 else -1), st)
+        if len(rng) > self.maxconc:
+            raise Unsupported("implied-do too long")
+        saved = self.store[b.key]
+        out = []
+        try:
+            for k in rng:
+                self.store[b.key] = z3.IntVal(k)       # the implied-do variable is local to the constructor
+                for x in exprs:
+                    if isinstance(x, F.Ac_Implied_Do):
+                        out.extend(self._implied_do(x, frame, g))
+                        continue
+                    v = self.ev(x, frame, g)
+                    if isinstance(v, ArrVal):
+                        raise Unsupported("array item in implied-do")
+                    out.append(v)
+        finally:
+            self.store[b.key] = saved
+        return out
 
     def _lift1(self, v, fn):
         if isinstance(v, ArrVal):
